@@ -89,6 +89,13 @@ def case_rename(draw):
         else:
             tgt = 'N%d' % i
         mapping.append([p, tgt])
+    names_ = [f['name'] for f in flds]
+    if len(names_) >= 2 and draw(st.integers(0, 2)) == 0:
+        a, b = draw(st.lists(st.sampled_from(names_), min_size=2, max_size=2, unique=True))
+        ka, kb = (re.escape(a), re.escape(b)) if regex else (a, b)
+        tb = b.replace('\\', '\\\\') if regex else b
+        ta = a.replace('\\', '\\\\') if regex else a
+        mapping = [[ka, tb], [kb, ta]] if draw(st.booleans()) else [[ka, tb], [kb, 'N_chain']]   # swap | chain a->b, b->fresh
     # dict semantics: later duplicate keys overwrite
     seen = {}
     for p, t in mapping:
@@ -143,6 +150,18 @@ def case_computed(draw):
                 row[f['name']] = v
             rows.append(row)
         pkg.append({'name': 'res%d' % (i + 1), 'fields': copy.deepcopy(list(flds)), 'rows': rows})
+    if len(pkg) == 2 and draw(st.booleans()):
+        # the same field names, but the numeric columns of the second resource have the other numeric type
+        for f in pkg[1]['fields']:
+            if f['type'] in ('integer', 'number'):
+                f['type'] = 'number' if f['type'] == 'integer' else 'integer'
+        for row in pkg[1]['rows']:
+            for f in pkg[1]['fields']:
+                v = row[f['name']]
+                if v is not None and f['type'] == 'integer':
+                    row[f['name']] = int(v)
+                elif v is not None and f['type'] == 'number':
+                    row[f['name']] = decimal.Decimal(v) + decimal.Decimal('0.5')
     targets = [r['name'] for r in pkg]
     sel = draw(st.sampled_from([None, targets]))
     specs = []
@@ -450,6 +469,21 @@ def check(case, ctx):
                     raise Violation('%s:field-type-changed' % op, {'field': n})
         if op == 'add_field' and types_out[case['name']] != case['type']:
             raise Violation('add_field:declared-type-lost', {'got': types_out[case['name']]})
+        if op == 'computed':
+            # schema and rows in lockstep also means: the declared type of a computed field accepts its values
+            import tableschema
+            for fd in out_desc['resources'][i]['schema']['fields']:
+                if fd['name'].startswith('out') and fd.get('type') not in (None, 'any'):
+                    fld = tableschema.Field(fd)
+                    for row in out_rows[i]:
+                        v = row.get(fd['name'])
+                        if v is None:
+                            continue
+                        try:
+                            fld.cast_value(v)
+                        except tableschema.exceptions.CastError:
+                            raise Violation('computed:value-not-valid-for-declared-type',
+                                            {'field': fd['name'], 'type': fd['type'], 'value': v, 'resource': r['name']})
         # non-triviality
         names = [f['name'] for f in r['fields']]
         if op in ('select', 'delete', 'rename'):
